@@ -263,9 +263,32 @@ func (fc *fsCtx) ruleAllocator2(r *Report, im *fsImpl) {
 			})
 			okIns := len(ins) > 0
 			vin := v.(ssa.Instruction)
+			// the places where the number is used for anything but the insertion itself
+			var uses []ssa.Instruction
+			for _, rf := range refs(v) {
+				isIns := false
+				for _, mu := range ins {
+					if rf == ssa.Instruction(mu) {
+						isIns = true
+					}
+				}
+				if _, dbg := rf.(*ssa.DebugRef); !isIns && !dbg {
+					uses = append(uses, rf)
+				}
+			}
 			for _, b := range f.Blocks {
 				ret, isRet := b.Instrs[len(b.Instrs)-1].(*ssa.Return)
 				if !isRet || !(vin.Block() == b || vin.Block().Dominates(b)) {
+					continue
+				}
+				// a return that no use of the number can precede hands out nothing (the name existed)
+				used := false
+				for _, u := range uses {
+					if u == ssa.Instruction(ret) || reachesInstr(u, ret) {
+						used = true
+					}
+				}
+				if !used {
 					continue
 				}
 				dom := false
